@@ -42,8 +42,11 @@ class C11(Prop):
                     pts.append([az, toa])
                 M = [[rng.gauss(0, 1) for _ in range(3)] for _ in range(3)]
                 M = [[0.5 * (M[i][j] + M[j][i]) for j in range(3)] for i in range(3)]
+                intdeg = (not rad) and rng.random() < 0.25
+                if intdeg:
+                    pts = [[float(rng.randrange(0, 360)), float(rng.randrange(0, 181))] for _ in pts]
                 yield {'kind': 'angles', 'phase': rng.choice(['P', 'SH', 'SV', 'p', 'PQ', 'SHQ', 'svq', 'Sh']), 'radians': rad,
-                       'pts': pts, 'M': M, 'psi': rng.uniform(-360, 360)}
+                       'pts': pts, 'M': M, 'psi': rng.uniform(-360, 360), 'intdeg': intdeg}
             elif rng.random() < 0.12:
                 # a ratio phase returns the coefficient rows of numerator and denominator, in degrees or radians
                 rad = rng.random() < 0.5
@@ -54,6 +57,17 @@ class C11(Prop):
                         az, toa = az * math.pi / 180, toa * math.pi / 180
                     pts.append([az, toa])
                 yield {'kind': 'angles-ratio', 'phase': rng.choice(['P/SH', 'P/SV', 'SH/SV', 'PQ/SHQ', 'SH/P', 'sv/p']), 'radians': rad, 'pts': pts}
+            elif rng.random() < 0.15:
+                # relative-amplitude observations: one or two amplitude types, signed measurements
+                types = {}
+                for key in rng.sample(['PAmplitude', 'SHAmplitude', 'SVRMSAmplitude', 'PQAmplitude'], rng.randint(1, 2)):
+                    rows = []
+                    for nm in dg.station_names(rng, rng.randint(1, 6)):
+                        m = 10 ** rng.uniform(-2, 2) * rng.choice([1, -1])
+                        rows.append({'name': nm, 'az': rng.uniform(0, 360), 'toa': rng.uniform(0, 180), 'measured': [m],
+                                     'error': [abs(m) * 10 ** rng.uniform(-2, 0)], 'ipp': None})
+                    types[key] = rows
+                yield {'kind': 'relmatrix', 'event': {'types': types, 'loc': None, 'weights': None}}
             else:
                 which = rng.choice(['pol', 'pp', 'ar'])
                 ev = dg.gen_event(rng, want_pol={'pol': 'pol', 'pp': 'pp', 'ar': 'none'}[which], want_ar=(which == 'ar'))
@@ -64,9 +78,17 @@ class C11(Prop):
         np, inv = self.np, self.inv
         k = case['kind']
         if k == 'angles':
-            st = {'Azimuth': np.matrix([[p[0]] for p in case['pts']]), 'TakeOffAngle': np.matrix([[p[1]] for p in case['pts']])}
+            dt = int if case.get('intdeg') else float
+            st = {'Azimuth': np.matrix([[dt(p[0])] for p in case['pts']]), 'TakeOffAngle': np.matrix([[dt(p[1])] for p in case['pts']])}
+            keep = (np.array(st['Azimuth'], dtype=float).copy(), np.array(st['TakeOffAngle'], dtype=float).copy())
             a = inv.station_angles(st, case['phase'], radians=case['radians'])
             out = {'a': [flat(r, np) for r in np.asarray(a)]}
+            # the (azimuth, take-off) tuple form with the caller's own arrays: they must come back unchanged
+            tup = (np.matrix([[float(p[0])] for p in case['pts']]), np.matrix([[float(p[1])] for p in case['pts']]))
+            inv.station_angles(tup, case['phase'], radians=case['radians'])
+            out['inputs_changed'] = bool(not np.array_equal(np.array(st['Azimuth'], dtype=float), keep[0]) or
+                                         not np.array_equal(np.array(st['TakeOffAngle'], dtype=float), keep[1]) or
+                                         not np.array_equal(np.asarray(tup[0]), keep[0]) or not np.array_equal(np.asarray(tup[1]), keep[1]))
             psi = case['psi'] if not case['radians'] else case['psi'] * math.pi / 180
             st2 = {'Azimuth': st['Azimuth'] + psi, 'TakeOffAngle': st['TakeOffAngle']}
             out['rot'] = [flat(r, np) for r in np.asarray(inv.station_angles(st2, case['phase'], radians=case['radians']))]
@@ -77,6 +99,10 @@ class C11(Prop):
             num, den = case['phase'].split('/')
             return {'pair': [[flat(r, np) for r in np.asarray(a)] for a in pair],
                     'single': [[flat(r, np) for r in np.asarray(inv.station_angles(st, ph, radians=case['radians']))] for ph in (num, den)]}
+        if k == 'relmatrix':
+            data, _l = dg.to_mtfit(case['event'], np)
+            a, amp, perr, names = inv.relative_amplitude_ratio_matrix(data, False)
+            return {'a': [flat(r, np) for r in np.asarray(a)[:, 0, :]], 'amp': flat(amp, np), 'perr': flat(perr, np), 'names': list(names)}
         data, loc = dg.to_mtfit(case['event'], np)
         if k == 'polmatrix':
             a, err, ipp = inv.polarity_matrix(data, loc)
@@ -106,6 +132,8 @@ class C11(Prop):
         if k == 'angles':
             toks = ' '.join('%s %s' % (bits(a), bits(t)) for a, t in case['pts'])
             return ['stationangles %s %d %d %s' % (case['phase'], 1 if case['radians'] else 0, len(case['pts']), toks)]
+        if k == 'relmatrix':
+            return []
         if k == 'angles-ratio':
             toks = ' '.join('%s %s' % (bits(a), bits(t)) for a, t in case['pts'])
             return ['stationangles %s %d %d %s' % (ph, 1 if case['radians'] else 0, len(case['pts']), toks) for ph in case['phase'].split('/')]
@@ -148,6 +176,8 @@ class C11(Prop):
         if 'shape_error' in impl:
             return [('implementation output is inconsistent: ' + impl['shape_error'], None)]
         k = case['kind']
+        if k == 'relmatrix':
+            return []
         if k == 'angles-ratio':
             for j, rep in enumerate(replies):
                 model = reply_floats(rep)
@@ -203,6 +233,25 @@ class C11(Prop):
             return [('raises', '%s raised %s: %s' % (case['kind'], impl['exc'], impl.get('msg')), impl)]
         k = case['kind']
         out = []
+        if k == 'relmatrix':
+            # by-name specification: types in sorted key order, stations in file order; |amplitude|, error / |amplitude| >= 0
+            exp = []
+            for key in sorted(case['event']['types']):
+                ph = key.lower().replace('_', '').split('amplitude')[0]
+                if ph.endswith('rms'):
+                    ph = ph[:-3]
+                ph = ph.rstrip('q')
+                for r in case['event']['types'][key]:
+                    exp.append((r['name'], dg.coeff_row(ph, r['az'], r['toa']), abs(r['measured'][0]), r['error'][0] / abs(r['measured'][0])))
+            if impl['names'] != [e[0] for e in exp] or len(impl['a']) != len(exp):
+                return [('misaligned', 'relative-amplitude stations %r, the data list %r' % (impl['names'], [e[0] for e in exp]), None)]
+            for j, e in enumerate(exp):
+                if not (all(close(x, y, atol=1e-12) for x, y in zip(impl['a'][j], e[1])) and close(impl['amp'][j], e[2], rtol=1e-12) and
+                        close(impl['perr'][j], e[3], rtol=1e-12)):
+                    out.append(('misaligned', 'relative-amplitude row %d (%s): coefficients / amplitude / fractional error %r, %r, %r; the '
+                                'station\'s own values are %r, %r, %r' % (j, e[0], impl['a'][j][:3], impl['amp'][j], impl['perr'][j], e[1][:3], e[2], e[3]), None))
+                    break
+            return out
         if k == 'angles-ratio':
             if len(impl['pair']) != 2:
                 return [('radiation', 'a ratio phase returned %d coefficient arrays' % len(impl['pair']), None)]
@@ -224,6 +273,8 @@ class C11(Prop):
             R = [[c, -s, 0], [s, c, 0], [0, 0, 1]]
             Mr = [[sum(R[i][a] * M[a][b] * R[j][b] for a in range(3) for b in range(3)) for j in range(3)] for i in range(3)]
             m6r = [Mr[0][0], Mr[1][1], Mr[2][2], math.sqrt(2) * Mr[0][1], math.sqrt(2) * Mr[0][2], math.sqrt(2) * Mr[1][2]]
+            if impl.get('inputs_changed'):
+                out.append(('radiation', 'station_angles modified the caller\'s azimuth / take-off arrays', None))
             for (az, toa), row, rrow in zip(case['pts'], impl['a'], impl['rot']):
                 amp = sum(a * b for a, b in zip(row, m6))
                 ref = dg.radiation(ph, az * f, toa * f, M)
@@ -249,6 +300,8 @@ class C11(Prop):
     def nontrivial(self, case, impl):
         if case['kind'] in ('angles', 'angles-ratio'):
             return True
+        if case['kind'] == 'relmatrix':
+            return sum(len(r) for r in case['event']['types'].values()) > 1
         ev = case['event']
         return ev['loc'] is not None or any(len(r) > 1 for r in ev['types'].values())
 
@@ -258,6 +311,8 @@ class C11(Prop):
             return 'angles/%s/%s' % (case['phase'].lower().rstrip('q'), 'rad' if case['radians'] else 'deg')
         if k == 'angles-ratio':
             return 'angles-ratio/%s' % ('rad' if case['radians'] else 'deg')
+        if k == 'relmatrix':
+            return 'relmatrix/%dtypes' % len(case['event']['types'])
         ev = case['event']
         return '%s/%dtypes/%s' % (k, len(ev['types']), 'loc' if ev['loc'] else 'noloc')
 
